@@ -202,6 +202,14 @@ def dropped_coroutines(prog: Program, funcs) -> List[Tuple[str, ast.AST, str]]:
                     t = resolve_call(prog, f, n.value)
                     if t is not None and getattr(t, "is_async", False) and not any(isinstance(y, (ast.Yield, ast.YieldFrom)) for y in ast.walk(t.node)):
                         out.append((f.qual, n, t.qual))
+            # `a, b = coro()` (no await): a coroutine object does not unpack
+            for n in ast.walk(f.node):
+                if isinstance(n, ast.Assign) and len(n.targets) == 1 and isinstance(n.targets[0], (ast.Tuple, ast.List)) and isinstance(n.value, ast.Call):
+                    t = resolve_call(prog, f, n.value)
+                    lib_coro = isinstance(n.value.func, ast.Attribute) and isinstance(n.value.func.value, ast.Name) and n.value.func.value.id == "asyncio" \
+                        and n.value.func.attr in ("wait_for", "gather", "sleep", "open_connection", "wait")
+                    if (t is not None and getattr(t, "is_async", False) and not any(isinstance(y, (ast.Yield, ast.YieldFrom)) for y in ast.walk(t.node))) or lib_coro:
+                        out.append((f.qual, n, t.qual if t is not None else "asyncio." + n.value.func.attr))
             # `x = coro()` (no await) with x bound once and then used as the result (x.attr / x[i] / iteration / arithmetic / comparison):
             # the value is the coroutine object, the call never ran
             binds = {}
@@ -225,7 +233,10 @@ def dropped_coroutines(prog: Program, funcs) -> List[Tuple[str, ast.AST, str]]:
                 uses = [u for u in ast.walk(f.node) if isinstance(u, ast.Name) and u.id == name and isinstance(u.ctx, ast.Load)]
                 as_value = [u for u in uses if (isinstance(par.get(u), ast.Attribute) and par[u].attr not in ("close", "send", "throw", "cr_frame", "cr_running", "cr_await", "cr_code"))
                             or (isinstance(par.get(u), ast.Subscript) and par[u].value is u) or (isinstance(par.get(u), (ast.For, ast.comprehension)) and par[u].iter is u)
-                            or isinstance(par.get(u), (ast.BinOp, ast.Compare))]
+                            or isinstance(par.get(u), (ast.BinOp, ast.Compare))
+                            or (isinstance(par.get(u), ast.Call) and isinstance(par[u].func, ast.Name) and u in par[u].args
+                                and par[u].func.id in ("memoryview", "bytes", "bytearray", "len", "int", "float", "str", "list", "tuple", "dict", "set", "sum", "sorted", "min", "max"))
+                            or (isinstance(par.get(u), ast.withitem) and isinstance(par[u].context_expr, ast.Name))]
                 if as_value:          # (bound once: whatever else is done with it, these uses see the coroutine object)
                     out.append((f.qual, n, t.qual))
     return out
